@@ -368,7 +368,10 @@ def check_convert_value(val: str, char: Characteristic) -> Any:
         # See https://github.com/home-assistant/core/issues/37083
         if char.minStep:
             with localcontext() as ctx:
-                ctx.prec = 6
+                if char.format not in INTEGER_TYPES:
+                    # Only fractional values are limited to 6 significant
+                    # digits; integers must stay exact (2**64 - 1 has 20 digits)
+                    ctx.prec = 6
 
                 # Python3 uses bankers rounding by default, so 28.5 rounds to 28, not 29.
                 # This is surprising for most people
